@@ -280,6 +280,8 @@ class _ParseEval:
                     raise AnalysisError("tracker parse: stepped slice")
                 return v[lo:hi]
             return v[self.ev(sl)]
+        if isinstance(x, ast.Call) and isinstance(x.func, ast.Attribute) and x.func.attr == "readline" and "\0raw" in self.env:
+            return self.env["\0raw"]
         if isinstance(x, ast.Call) and isinstance(x.func, ast.Attribute) and x.func.attr in self.METHODS and not x.keywords:
             recv = self.ev(x.func.value)
             args = [self.ev(a) for a in x.args]
@@ -418,6 +420,17 @@ def r_rt_loop(e, R):
                   and isinstance(t.ast.ops[0], ast.Eq) for t in tests) and not _inside(e, b.ast, tr)
     R.check(okb, "R-RT-LOOP", "the only exit of the loop is EOF of the request pipe", f.short, "if line == b'': break",
             "the tracker can stop before every process of the tree has closed the pipe", e.loc(f, loop))
+    # ... and what is compared with b"" is the untouched result of readline(): only a read at EOF returns b""; a stripped / sliced
+    # line is also empty for a blank request line ("\n", " \n", a name containing an empty line), which is malformed input, not EOF
+    if okb:
+        for t_ in tests:
+            if isinstance(t_.ast, ast.Compare) and isinstance(t_.ast.comparators[0], ast.Constant) and t_.ast.comparators[0].value == b"":
+                subj = t_.ast.left
+                srcs = [subj] if not isinstance(subj, ast.Name) else e.reaching_defs(f, subj.id, t_)
+                raw = bool(srcs) and all(isinstance(d, ast.Call) and isinstance(d.func, ast.Attribute) and d.func.attr == "readline" for d in srcs)
+                R.check(raw, "R-RT-LOOP", "the EOF test looks at the unmodified result of readline()", f.short, f"{norm(subj)} = " + " | ".join(norm(d) if d is not None else "<unset>" for d in srcs),
+                        "the end-of-file test is applied to a transformed line: a blank or whitespace-only request line is taken for EOF, the tracker leaves its "
+                        "loop and destroys every resource that is still counted while the processes of the tree are alive", e.loc(f, t_.ast))
     # handler cannot leave the loop
     for h in hs:
         hn = g.nodes_of(h)
@@ -689,8 +702,8 @@ def r_rt_proto(e, R):
     # the line variable: the name assigned from readline()
     linev = None
     for n in func_nodes(f):
-        if isinstance(n, ast.Assign) and isinstance(n.targets[0], ast.Name) and isinstance(n.value, ast.Call) and isinstance(n.value.func, ast.Attribute) \
-                and n.value.func.attr == "readline":
+        if isinstance(n, ast.Assign) and isinstance(n.targets[0], ast.Name) and any(
+                isinstance(c, ast.Call) and isinstance(c.func, ast.Attribute) and c.func.attr == "readline" for c in ast.walk(n.value)):
             linev = n.targets[0].id
     if linev is None:
         raise AnalysisError("tracker: the line variable is not recognised")
@@ -702,7 +715,10 @@ def r_rt_proto(e, R):
                (b"PROBE:0:noop\n", ("PROBE", "0", "noop"))]
     bad = None
     for raw, want in samples:
-        env = _ParseEval({linev: raw}).run(parse)
+        # every assignment to the line variable at the top level of the loop (the read itself, a strip after the EOF test, ...) is folded
+        # before the parse block, with readline() standing for the sample
+        pre = [st for st in loop.body if isinstance(st, ast.Assign) and any(isinstance(t_, ast.Name) and t_.id == linev for t_ in st.targets)]
+        env = _ParseEval({"\0raw": raw}).run(pre + list(parse))
         got = (env.get(cmdv), env.get(namev), env.get(rtypev))
         if got != want:
             bad = (raw, got, want)
